@@ -23,6 +23,7 @@ BINARIES = {
     "crash": ("zzverif/cmd/crash", False),
     "sflowc": ("zzverif/cmd/sflowc", False),
     "c20": ("zzverif/cmd/c20", False),
+    "cachefile": ("zzverif/cmd/cachefile", False),
 }
 
 
@@ -202,6 +203,86 @@ def c04(tier):
                   assumptions=["states are merged on the reference map; the implementation's canonical cache content (read from the exported structure, timestamps dropped) is checked to be a function of it, which is what makes the merge sound",
                                "the FNV-colliding exporter pairs were found offline by a birthday search and are recomputed with hash/fnv at start-up",
                                "peer-fetched insert uses the cache's private insert through a verif-tagged export file injected by the overlay"], t0=t0)
+
+
+def observe_write_model(binary, proto):
+    """Run the real Dump under strace and derive which images of the cache file a crash can leave."""
+    import tempfile, shutil, re
+    d = tempfile.mkdtemp(prefix="c11_", dir=orch.BUILD)
+    target = os.path.join(d, "cache.file")
+    out = os.path.join(d, "strace.out")
+    model = None
+    try:
+        r = subprocess.run(["strace", "-f", "-o", out, "-e", "trace=openat,open,creat,write,pwrite64,rename,renameat,renameat2,fsync,fdatasync,ftruncate,close",
+                            binary, "-dumponly", target, proto], env=dict(orch.GOENV, VERIF_TMP=d), stdout=subprocess.PIPE, stderr=subprocess.PIPE, timeout=60)
+        if r.returncode == 0 and os.path.exists(out):
+            lines = open(out, errors="replace").read().splitlines()
+            fds, direct, trunc, writes, fsynced, renamed = {}, False, False, 0, False, False
+            tmpfd_synced = set()
+            for l in lines:
+                m = re.search(r'open(?:at)?\((?:AT_FDCWD, )?"([^"]+)", ([A-Z_|]+)[^)]*\)\s+= (\d+)', l)
+                if m:
+                    fds[m.group(3)] = (m.group(1), m.group(2))
+                    if m.group(1) == target:
+                        direct = True
+                        trunc = "O_TRUNC" in m.group(2)
+                    continue
+                m = re.search(r'(?:write|pwrite64)\((\d+),', l)
+                if m and m.group(1) in fds and (fds[m.group(1)][0] == target or fds[m.group(1)][0].startswith(d)) and "cache" in fds[m.group(1)][0]:
+                    writes += 1
+                    continue
+                m = re.search(r'(?:fsync|fdatasync)\((\d+)\)', l)
+                if m and m.group(1) in fds:
+                    tmpfd_synced.add(fds[m.group(1)][0])
+                    if fds[m.group(1)][0] == target:
+                        fsynced = True
+                    continue
+                m = re.search(r'rename(?:at2?)?\(.*"([^"]+)"[^"]*"([^"]+)"', l)
+                if m and m.group(2) == target:
+                    renamed = True
+                    fsynced = m.group(1) in tmpfd_synced
+            if renamed and fsynced:
+                kinds, how = ["old", "full"], "temp file + fsync + rename"
+            elif renamed:
+                kinds, how = ["old", "empty", "prefix", "zerofill", "full"], "temp file + rename WITHOUT fsync (delayed allocation can expose an empty or partial new file)"
+            elif direct:
+                kinds, how = ["old", "empty", "prefix", "zerofill", "full"], "openat(%s) + %d write(s) + close on the target itself%s" % ("O_TRUNC" if trunc else "no O_TRUNC", writes, ", fsync" if fsynced else ", no fsync, no rename")
+            else:
+                kinds, how = None, None
+            if kinds:
+                model = {"kinds": kinds, "source": "strace of the real Dump: " + how}
+    except Exception as e:
+        log("[C11] strace unavailable: %s" % e)
+    shutil.rmtree(d, ignore_errors=True)
+    return model
+
+
+@check("C11")
+def c11(tier):
+    t0 = time.time()
+    b = build("cachefile")
+    res = []
+    models = {}
+    tmp = os.path.join(orch.BUILD, "c11tmp")
+    os.makedirs(tmp, exist_ok=True)
+    for proto in ("ipfix", "v9"):
+        wm = observe_write_model(b, proto)
+        models[proto] = wm or {"kinds": ["old", "empty", "prefix", "zerofill", "full"], "source": "ASSUMED truncate+write (strace failed)"}
+        env = {"VERIF_TMP": tmp, "VERIF_WRITE_MODEL": json.dumps(models[proto])}
+        for sp in ("roundtrip", "struct", "crash", "bytes"):
+            r = run_space(b, proto + "." + sp, tier, env=env, hang_s=60)
+            res.append(r)
+    import shutil
+    shutil.rmtree(tmp, ignore_errors=True)
+    return finish("C11", tier, res,
+                  rule="per protocol: roundtrip: 6 (thorough 40) cache contents reached by decoding announcements (0..240 templates; plain/options/enterprise/variable-length; IPv4-mapped, 4-byte and IPv6 exporters) dumped, loaded, every key probed with a well-formed data message and compared with the live cache, second generation identical; "
+                       "crash: every image the observed write history of Dump can leave (old file, empty, EVERY byte prefix, prefixes zero-filled to 512/4096-octet boundaries and to full length, complete) - loaded cache must be a subset of the saved one and usable; "
+                       "bytes: every position x 12 substitution octets, every single-octet deletion and duplication; struct: 28 Cache shapes x 11 ShardNo forms x 2 key orders + absent/empty/directory/non-JSON files. Usable = announce+data succeeds for 96 probe exporters. Non-trivial = every case; distinct = file octets.",
+                  assumptions=["write history of Dump: " + models["ipfix"]["source"],
+                               "crash model: a crash leaves a byte prefix of an unsynced write, possibly with zero-filled blocks; no reordering across files",
+                               "for byte/structure corruptions only 'never crashes' and 'usable' are demanded (a corrupted but valid document has no saved cache to be a subset of)",
+                               "an unreadable file cannot be produced as root; absent/directory stand in for it"],
+                  extra_cov={"write_model": models}, t0=t0)
 
 
 def main(argv):
